@@ -174,6 +174,9 @@ def make_registry():  # noqa: F811  (final definition)
     reg.inline.add(f"{PU}:SimpleBatcher.rng")
     import torch
 
+    from pyvc.lib import torch_ as _tm
+
+    _tm.install(reg)
     reg.models[torch.Generator] = lambda interp, device=None: _TorchGen(device)
     reg.ctor_models[torch.Generator] = lambda interp, device=None: _TorchGen(device)
     return reg
@@ -516,6 +519,64 @@ C_CPA = Contract(f"{PB}:PtychographyBase.compute_propagator_arrays", setup=lambd
 
 
 # --------------------------------------------------------------------------------------------
+# PtychographyBase.error_estimate : the loss is the batch error divided by the batch fraction b/N
+# --------------------------------------------------------------------------------------------
+
+
+class Bag:
+    """Plain attribute holder standing for the dataset model (only the four attributes error_estimate reads)."""
+
+    _pyvc_value = True
+
+    def __init__(self, **kw):
+        self.__dict__.update(kw)
+
+
+def ee_setup(ctx):
+    import torch
+    from pyvc.lib import torch_ as tm2
+
+    b, R, C, N = ctx.fresh("b", "int"), ctx.fresh("R", "int"), ctx.fresh("C", "int"), ctx.fresh("num_gpts", "int")
+    ctx.assume(AND(b.t >= 1, R.t >= 1, C.t >= 1, N.t >= 1))
+    pred = ctx.fresh_arr("pred", (b, R, C), "real")
+    targets_all = ctx.fresh_arr("targets", (N, R, C), "real")
+    mask = ctx.fresh_arr("dmask", (R, C), "real")
+    bi = ctx.fresh_arr("batch_indices", (b,), "int")
+    for a in (pred, targets_all, mask, bi):
+        a.as_type = torch.Tensor
+    i = I("i!q")
+    ctx.assume(forall(i, implies(AND(i >= 0, i < b.t), AND(lift(bi.fn(i)) >= 0, lift(bi.fn(i)) < N.t))))
+    mi = ctx.fresh("mean_intensity", "real")
+    ctx.assume(mi.t > 0)
+    kinds = ["l2_amplitude", "l1_amplitude", "l2_intensity", "l1_intensity"]
+    lt = kinds[0]
+    for kname in kinds[1:]:
+        if ctx.branch(ctx.fresh("lt_" + kname, "bool").t):
+            lt = kname
+            break
+    dset = Bag(targets=targets_all, detector_mask=mask, num_gpts=N, mean_diffraction_intensity=mi)
+    o = Obj(PBC, {"_dset": dset})
+    return NS(self=o, pred_intensities=pred, batch_indices=bi, loss_type=lt, b=b, N=N, mi=mi, mask=mask, targets_all=targets_all)
+
+
+def ee_ensures(s):
+    from pyvc import reals as Rr
+
+    loss, targets = s.result
+    tg = s.targets_all[s.batch_indices]
+    preds = V.elementwise(lambda e: Rr.app("sqrt", S(e) + 1e-9), s.pred_intensities) if "amplitude" in s.loss_type else s.pred_intensities
+    diff = preds * s.mask - tg * s.mask
+    err = (abs(diff)).sum() if "l1" in s.loss_type else (abs(diff) ** 2).sum()
+    b, N, mi = lift(s.b), lift(s.N), lift(s.mi)
+    return [("loss=batch_error/(b/N)/mean_intensity", lift(loss) * (z3.ToReal(b) / z3.ToReal(N)) * mi == lift(err)),
+            ("targets-are-the-batch's-rows", lift(targets.sym_len()) == b)]
+
+
+C_ERR = Contract(f"{PB}:PtychographyBase.error_estimate", setup=ee_setup, ensures=ee_ensures,
+                 inline=[f"{PB}:PtychographyBase.dset"])
+
+
+# --------------------------------------------------------------------------------------------
 # run-time oracles (replay of counter-models on the REAL functions, bounded stand-ins)
 # --------------------------------------------------------------------------------------------
 
@@ -686,7 +747,138 @@ C_INIT.concretize, C_INIT.rt, C_INIT.rt_family = conc_init, rt_batcher, fam_batc
 for _c in (C_RNGSET, C_MSET, C_RESET, C_RESETRECON):
     _c.concretize, _c.rt, _c.rt_family = conc_reset, rt_reset, fam_reset
 
-CONTRACTS = [C_SUBDIVIDE, C_GENERATE, C_ITER, C_LEN, C_ITERVAL, C_VALLEN, C_INIT, C_RNGSET, C_MSET, C_RESET, C_RESETRECON]
+
+# ---- toy ptychography problem: per-batch vs full-batch loss/gradient, seeded loss histories (bounded stand-in) ----
+_TOY = {}
+
+
+def _toy(seed, n=6):
+    import warnings
+    import numpy as np
+
+    warnings.filterwarnings("ignore")
+    from quantem.core import config
+    from quantem.core.datastructures.dataset4dstem import Dataset4dstem
+    from quantem.core.utils.utils import electron_wavelength_angstrom
+    from quantem.diffractive_imaging.dataset_models import PtychographyDatasetRaster
+    from quantem.diffractive_imaging.detector_models import DetectorPixelated
+    from quantem.diffractive_imaging.object_models import ObjectPixelated
+    from quantem.diffractive_imaging.probe_models import ProbePixelated
+    from quantem.diffractive_imaging.ptychography import Ptychography
+
+    config.set_device("cpu")
+    N, QMAX, E, C10 = n, 0.5, 300e3, 50
+    if "data" not in _TOY:
+        samp, rs = 1 / QMAX / 2, 2 * QMAX / N
+        q = np.fft.fftfreq(N, samp)
+        qq = np.sqrt(q[:, None] ** 2 + q[None, :] ** 2)
+        ap = np.sqrt(np.clip((QMAX / 2 - qq) / rs + 0.5, 0, 1))
+        pf = ap * np.exp(-1j * qq**2 * electron_wavelength_angstrom(E) * np.pi * C10)
+        pf /= np.sqrt(np.sum(np.abs(pf) ** 2))
+        probe = np.fft.ifft2(pf) * N
+        rng = np.random.default_rng(1234)
+        ph = rng.random((N, N)); ph -= ph.mean()
+        obj = np.exp(1j * ph.astype(np.float32))
+        x = np.arange(N)
+        xx, yy = np.meshgrid(x, x, indexing="ij")
+        ind = np.fft.fftfreq(N, d=1 / N).astype(int)
+        row = (xx.ravel()[:, None, None] + ind[None, :, None]) % N
+        col = (yy.ravel()[:, None, None] + ind[None, None, :]) % N
+        inten = np.abs(np.fft.fft2(obj[row, col] * probe)) ** 2
+        _TOY["data"] = np.fft.fftshift(inten * 100, axes=(-2, -1)).reshape(N, N, N, N)
+        _TOY["probe"] = probe
+    rs = 2 * QMAX / N
+    d4 = Dataset4dstem.from_array(array=_TOY["data"].copy(), sampling=(1, 1, rs, rs), units=("A", "A", "A^-1", "A^-1"))
+    pd = PtychographyDatasetRaster.from_dataset4dstem(d4, verbose=0)
+    pd.preprocess(com_fit_function="constant", plot_rotation=False, plot_com=False, probe_energy=E, force_com_rotation=0, force_com_transpose=False)
+    om = ObjectPixelated.from_uniform(num_slices=1, obj_type="complex", slice_thicknesses=1)
+    pm = ProbePixelated.from_array(num_probes=1, probe_params={"energy": E, "C10": C10, "semiangle_cutoff": electron_wavelength_angstrom(E) * 1e3}, probe_array=_TOY["probe"])
+    pt = Ptychography.from_models(dset=pd, obj_model=om, probe_model=pm, detector_model=DetectorPixelated(), rng=seed, verbose=0)
+    pt.preprocess(obj_padding_px=(0, 0))
+    return pt
+
+
+def rt_loss_invariance(inp):
+    """mean over batches of (loss_b, grad_b) == (full loss, full grad) when the batch size divides the pattern count."""
+    import numpy as np
+    import torch
+    from quantem.diffractive_imaging.ptycho_utils import SimpleBatcher
+
+    pt = _toy(3)
+    loss_type = inp["loss_type"]
+    pt.dset._set_targets(loss_type)
+    pt.compute_propagator_arrays()
+    num = pt.dset.num_gpts
+    B = inp["batch_size"]
+
+    def pass_(bs):
+        losses, grads = [], []
+        for bi in SimpleBatcher(num, bs, shuffle=False, rng=0):
+            for p_ in pt.obj_model.parameters():
+                if p_.grad is not None:
+                    p_.grad = None
+            patch_indices, _pp, frac, descan = pt.dset.forward(bi, pt.obj_padding_px)
+            probes = pt.probe_model.forward(frac)
+            patches = pt.obj_model.forward(patch_indices)
+            _prop, overlap = pt.forward_operator(patches, probes, descan)
+            pred = pt.detector_model.forward(overlap)
+            loss, _t = pt.error_estimate(pred, bi, loss_type=loss_type)
+            loss.backward()
+            g = [p_.grad.detach().clone() for p_ in pt.obj_model.parameters() if p_.grad is not None]
+            losses.append(float(loss))
+            grads.append(torch.cat([x.reshape(-1).to(torch.complex128) if x.is_complex() else x.reshape(-1).to(torch.float64).to(torch.complex128) for x in g]))
+        return np.mean(losses), torch.stack(grads).mean(0)
+
+    lf, gf = pass_(num)
+    lb, gb = pass_(B)
+    problems = []
+    if abs(lb - lf) > 1e-4 * max(1.0, abs(lf)):
+        problems.append(f"mean batch loss {lb:.6g} != full-batch loss {lf:.6g} (batch_size={B}, {loss_type})")
+    gd = float((gb - gf).abs().max()) if gf.numel() else 0.0
+    if gf.numel() and gd > 1e-4 * max(1e-6, float(gf.abs().max())):
+        problems.append(f"mean batch gradient differs from full gradient by {gd:.3g} (batch_size={B}, {loss_type})")
+    if gf.numel() == 0:
+        problems.append("no object gradient was produced (oracle cannot compare gradients)")
+    return dict(violated=bool(problems), observed="; ".join(problems) or "ok", expected="mean_b loss_b = loss_full and mean_b grad_b = grad_full for b | N")
+
+
+def fam_loss_invariance(tier="quick", seed=0):
+    sizes = (1, 4, 9, 36) if tier == "quick" else (1, 2, 3, 4, 6, 9, 12, 18, 36)
+    for lt in (("l2_amplitude", "l1_intensity") if tier == "quick" else ("l2_amplitude", "l1_amplitude", "l2_intensity", "l1_intensity")):
+        for b in sizes:
+            yield dict(batch_size=b, loss_type=lt)
+
+
+def rt_seeded_history(inp):
+    import numpy as np
+
+    seed, B = inp["seed"], inp["batch_size"]
+    opt = {"object": {"type": "sgd", "lr": 0.5}, "probe": {"type": "sgd", "lr": 0.5}}
+
+    def run(pt):
+        pt.reconstruct(num_iters=2, reset=True, optimizer_params=opt, batch_size=B, device="cpu")
+        return np.asarray(pt.iter_losses, dtype=float).copy()
+
+    a = _toy(seed)
+    first = run(a)
+    again = run(a)
+    fresh = run(_toy(seed))
+    problems = []
+    if not np.array_equal(first, again):
+        problems.append(f"seed={seed}: history after reset {again.tolist()} != first {first.tolist()}")
+    if not np.array_equal(first, fresh):
+        problems.append(f"seed={seed}: fresh same-seed run {fresh.tolist()} != first {first.tolist()}")
+    return dict(violated=bool(problems), observed="; ".join(problems) or "ok", expected="identical loss histories for the same seed / after reset")
+
+
+def fam_seeded_history(tier="quick", seed=0):
+    for sd in ((0, 7) if tier == "quick" else (0, 1, 7, 42, 2 ** 33 + 5)):
+        yield dict(seed=sd, batch_size=9)
+
+
+C_ERR.rt, C_ERR.rt_family = rt_loss_invariance, fam_loss_invariance
+
+CONTRACTS = [C_SUBDIVIDE, C_GENERATE, C_ITER, C_LEN, C_ITERVAL, C_VALLEN, C_INIT, C_RNGSET, C_MSET, C_RESET, C_RESETRECON, C_ERR]
 
 # --------------------------------------------------------------------------------------------
 # property-level lemmas
@@ -735,6 +927,8 @@ ASSUMPTIONS = ["A1 floats are reals (len/ceil(n/B) exact)", "A2 fixed-width ints
 EXPLANATION = "VCs generated from the real source of SimpleBatcher / subdivide_batches / generate_batches, discharged by z3/cvc5"
 BOUNDED = [
     Bounded.from_rt("subdivide/generate_batches small inputs", rt_subdivide, fam_subdivide, "num_items<=13, num_batches/max_batch<=14"),
+    Bounded.from_rt("toy ptychography (6x6 scan): mean per-batch loss/gradient = full-batch for b | 36", rt_loss_invariance, fam_loss_invariance, "6x6 scan, 6x6 ROI, divisors of 36, 2 (4) loss types"),
+    Bounded.from_rt("toy ptychography: identical loss histories for the same seed and after reset", rt_seeded_history, fam_seeded_history, "2 (5) seeds incl. 0, 2 iterations, batch 9 of 36"),
     Bounded.from_rt("RNG reset restarts the generators from the stored seed", rt_reset, fam_reset, "8 seeds incl. 0 and > 2^32, None"),
     Bounded.from_rt("SimpleBatcher small configurations", rt_batcher, fam_batcher, "num<=17, batch_size<=20, 9 split settings, 2 epochs"),
 ]
